@@ -14,6 +14,7 @@ import traceback
 
 ROOT = os.path.dirname(os.path.dirname(os.path.abspath(__file__)))
 sys.path.insert(0, ROOT)
+GEN_BUDGET_S = int(os.environ.get("PYVC_GEN_BUDGET_S", "900"))   # per generation round (all keys of the round run in parallel); the slowest key takes ~15 s on an idle machine
 
 
 def _gen_in_string_view(key):
@@ -116,7 +117,16 @@ def run_property(pid, tier, seed):
         # one freshly forked process per key: the z3 context (and with it the order of declarations in the SMT-LIB text) then has the
         # same history for a key in every run, whatever else is being generated
         with ctx.Pool(min(16, max(1, len(todo))), maxtasksperchild=1) as pool:
-            batch = pool.map(_gen_worker, todo, chunksize=1)
+            # VC generation calls z3 for path pruning; a changed function can make that (or the symbolic execution itself) run away. A key whose
+            # generation does not finish within the budget is UNDECIDED (never a verdict); leaving the 'with' block terminates the stuck worker.
+            pending = [(k, pool.apply_async(_gen_worker, (k,))) for k in todo]
+            deadline = time.time() + GEN_BUDGET_S
+            batch = []
+            for k, ar in pending:
+                try:
+                    batch.append(ar.get(timeout=max(1.0, deadline - time.time())))
+                except mp.TimeoutError:
+                    batch.append(dict(key=k, status="out-of-subset", error=f"VC generation did not finish within {GEN_BUDGET_S} s (undecided, not a verdict)"))
         done |= set(todo)
         gens += batch
         nxt = set()
